@@ -38,7 +38,7 @@ def graph_case(rnd, max_nodes=5, max_t=6, max_edges=12, selfloops=0.1, long_time
         a = rnd.choice([None, None] + list(range(min(ts) - 1, max(ts) + 2)))
         b = rnd.choice([None, None] + list(range(min(ts) - 1, max(ts) + 2)))
         qs.append((u, v, a, b))
-    return dict(directed=directed, removal=True, hist=hist, family=rnd.choice(['int', 'str', 'us', 'sp']), functional=False, queries=qs,
+    return dict(directed=directed, removal=True, hist=hist, family=rnd.choice(['int', 'int', 'digits', 'digits', 'str', 'us', 'sp']), functional=False, queries=qs,
                 min_t=rnd.choice([None, ts[0], rnd.choice(ts)]))
 
 
